@@ -19,7 +19,7 @@ export GOFLAGS=-mod=mod GOPROXY=off GOSUMDB=off GOTOOLCHAIN=local
 if ! go build ./... 2>/dev/null; then echo "DOES-NOT-BUILD $PATCH"; exit 4; fi
 cd /verif
 for P in "$@"; do
-  L=${TRY_LOGDIR:-/tmp}/try_$(basename "$PATCH" .diff)_$P.log
+  L=${TRY_LOGDIR:-/tmp}/try_$(basename $(dirname "$PATCH"))_$P.log
   VERIF_REPO="$WT" VERIF_OUT="$OUT" ./check $P $TIER > "$L" 2>&1
   rc=$?
   echo "$(basename $(dirname "$PATCH"))/$(basename "$PATCH") $P exit=$rc $(grep -c '^VIOLATION' "$L") violation lines; $(grep -h 'confirmed:' "$L" | head -2 | cut -c1-160 | tr '\n' '|')"
